@@ -24,7 +24,15 @@ type ScalarSpec struct {
 	// 3 START -> producer (output key k) -> END: the map {k: int}
 	// 4 Graph[int, int] START -> inc (invoke-only) -> END; Collect / Transform are called with the
 	//   input chunks In, Invoke / Stream with their concatenation (the last one)
+	// 5 Graph[any, string] START -> describe (invoke-only, any -> string) -> END; Collect / Transform are
+	//   called with any-typed input chunks that HOLD maps of the Go type MT, Invoke / Stream with their
+	//   concatenation: the engine concatenates interface-typed chunks by their dynamic type
+	// 6 START -> producer (string -> any, chunks holding maps of type MT) -> describe (invoke-only) -> END
+	// 7 Graph[string, any] START -> producer (string -> any, chunks holding maps of type MT) -> END
 	Shape int     `json:"shape"`
+	// Go type of the maps held by the any-typed chunks of shapes 5-7 (chunk i is {a|b: Out[i]}):
+	// 0 map[string]string, 1 map[string]int, 2 NMap, 3 map[string]any, 4 map[string]map[string]string
+	MT    int     `json:"mt,omitempty"`
 	Nat   [4]bool `json:"nat"`
 	Out   []int   `json:"out"`
 	In    []int   `json:"in,omitempty"`
@@ -124,8 +132,111 @@ func ownConcat(chunks []any) (any, error) {
 			out[k] = v
 		}
 		return out, nil
+	case map[string]string, map[string]int, NMap, map[string]map[string]string:
+		// a typed map: concatenated key by key like map[string]any, the result has the chunks' type
+		mt := -1
+		var gen []any
+		for _, c := range chunks {
+			m, t, ok := untypeMap(c)
+			if !ok || mt >= 0 && t != mt {
+				return nil, fmt.Errorf("chunks of different types: %T next to %T", chunks[0], c)
+			}
+			mt = t
+			gen = append(gen, m)
+		}
+		v, err := ownConcat(gen)
+		if err != nil {
+			return nil, err
+		}
+		return retypeMap(v.(map[string]any), mt), nil
 	}
 	return nil, fmt.Errorf("unsupported chunk type %T", chunks[0])
+}
+
+// untypeMap: the entries of a typed map as a map[string]any, and the code (ScalarSpec.MT) of its Go type
+func untypeMap(x any) (map[string]any, int, bool) {
+	out := map[string]any{}
+	switch m := x.(type) {
+	case map[string]string:
+		for k, v := range m {
+			out[k] = v
+		}
+		return out, 0, true
+	case map[string]int:
+		for k, v := range m {
+			out[k] = v
+		}
+		return out, 1, true
+	case NMap:
+		for k, v := range m {
+			out[k] = v
+		}
+		return out, 2, true
+	case map[string]any:
+		return m, 3, true
+	case map[string]map[string]string:
+		for k, v := range m {
+			in := map[string]any{}
+			for k2, v2 := range v {
+				in[k2] = v2
+			}
+			out[k] = in
+		}
+		return out, 4, true
+	}
+	return nil, 0, false
+}
+
+func retypeMap(m map[string]any, mt int) any {
+	switch mt {
+	case 0:
+		out := map[string]string{}
+		for k, v := range m {
+			out[k] = v.(string)
+		}
+		return out
+	case 1:
+		out := map[string]int{}
+		for k, v := range m {
+			out[k] = v.(int)
+		}
+		return out
+	case 2:
+		return NMap(m)
+	case 4:
+		out := map[string]map[string]string{}
+		for k, v := range m {
+			in := map[string]string{}
+			for k2, v2 := range v.(map[string]any) {
+				in[k2] = v2.(string)
+			}
+			out[k] = in
+		}
+		return out
+	}
+	return m
+}
+
+// anyMapChunks: the any-typed chunks of shapes 5-7 (chunk i holds the map {a|b: Out[i]} of Go type MT;
+// strings instead of ints where the type asks for them) and their concatenation by the harness's own rule
+func anyMapChunks(sp *ScalarSpec) ([]any, any, error) {
+	var chunks []any
+	for i, n := range sp.Out {
+		k := "a"
+		if i%2 == 1 {
+			k = "b"
+		}
+		var v any = fmt.Sprintf("s%d", n)
+		switch sp.MT {
+		case 1:
+			v = n
+		case 4:
+			v = map[string]any{fmt.Sprintf("f%d", n%2): fmt.Sprintf("s%d", n)}
+		}
+		chunks = append(chunks, retypeMap(map[string]any{k: v}, sp.MT))
+	}
+	whole, err := ownConcat(chunks)
+	return chunks, whole, err
 }
 
 type fourCalls struct {
@@ -240,6 +351,45 @@ func buildScalar(sp *ScalarSpec) (fourCalls, error) {
 			return fourCalls{}, err
 		}
 		return callsOf[string, map[string]any](r, "x", []string{"x"}), nil
+	case 5, 6, 7:
+		chunks, whole, err := anyMapChunks(sp)
+		if err != nil {
+			return fourCalls{}, err
+		}
+		describe := compose.InvokableLambda(func(ctx context.Context, in any) (string, error) { return renderAny(in), nil })
+		if sp.Shape == 5 {
+			g := compose.NewGraph[any, string]()
+			if err := first(g.AddLambdaNode("c", describe), g.AddEdge(compose.START, "c"), g.AddEdge("c", compose.END)); err != nil {
+				return fourCalls{}, err
+			}
+			r, err := g.Compile(ctx, copts...)
+			if err != nil {
+				return fourCalls{}, err
+			}
+			return callsOf[any, string](r, whole, chunks), nil
+		}
+		p := scalarLambda[string, any](sp, chunks, whole)
+		if sp.Shape == 6 {
+			g := compose.NewGraph[string, string]()
+			if err := first(g.AddLambdaNode("p", p), g.AddLambdaNode("c", describe),
+				g.AddEdge(compose.START, "p"), g.AddEdge("p", "c"), g.AddEdge("c", compose.END)); err != nil {
+				return fourCalls{}, err
+			}
+			r, err := g.Compile(ctx, copts...)
+			if err != nil {
+				return fourCalls{}, err
+			}
+			return callsOf[string, string](r, "x", []string{"x"}), nil
+		}
+		g := compose.NewGraph[string, any]()
+		if err := first(g.AddLambdaNode("p", p), g.AddEdge(compose.START, "p"), g.AddEdge("p", compose.END)); err != nil {
+			return fourCalls{}, err
+		}
+		r, err := g.Compile(ctx, copts...)
+		if err != nil {
+			return fourCalls{}, err
+		}
+		return callsOf[string, any](r, "x", []string{"x"}), nil
 	default:
 		g := compose.NewGraph[int, int]()
 		inc := compose.InvokableLambda(func(ctx context.Context, n int) (int, error) { return n + 1, nil })
@@ -333,7 +483,17 @@ func runScalar(c *Case) lib.Result {
 		for par := 0; par < 4; par++ {
 			parts = append(parts, parName[par]+"="+obs.P[par].Class)
 		}
-		res.Oracle = "a failure is reported in some paradigms only (int chunks): " + fmt.Sprint(parts)
+		what := "int chunks"
+		if sp.Shape >= 5 {
+			what = "any-typed chunks holding " + [...]string{"map[string]string", "map[string]int", "NMap", "map[string]any", "map[string]map[string]string"}[sp.MT%5]
+			for par := 0; par < 4; par++ {
+				if obs.P[par].Class != "ok" {
+					what += "; " + parName[par] + ": " + obs.P[par].Msg
+					break
+				}
+			}
+		}
+		res.Oracle = "a failure is reported in some paradigms only (" + what + "): " + fmt.Sprint(parts)
 		res.Sig = "scalar:fail-some"
 	}
 	if res.Oracle == "" && allOK {
@@ -355,5 +515,8 @@ func runScalar(c *Case) lib.Result {
 	zeroLast := len(sp.Out) > 1 && lastInt(sp.Out) == 0
 	res.Tags = []string{"kind:scalar", fmt.Sprintf("scalarshape:%d", sp.Shape), "nat:" + natStr(sp.Nat), "class:" + cls,
 		fmt.Sprintf("zerolast:%v", zeroLast)}
+	if sp.Shape >= 5 {
+		res.Tags = append(res.Tags, fmt.Sprintf("anymap:%d", sp.MT))
+	}
 	return res
 }
